@@ -47,6 +47,31 @@ def _tuple(f):
             f.header.reserved, bytes(f.message))
 
 
+class StepTimeout(BaseException):
+    pass
+
+
+def _alarm(signum, frame):
+    raise StepTimeout()
+
+
+def step(ctx, m, st, op, hist):
+    """one operation under a wall-clock guard: the queue code is pure Python (no SPI, no clock), so
+    a loop that never ends inside it (a dequeue() that does not shrink the queue, used by the move
+    constructor) can only be stopped from outside"""
+    import signal
+    signal.signal(signal.SIGALRM, _alarm)
+    signal.setitimer(signal.ITIMER_REAL, 10.0)
+    try:
+        return _step(ctx, m, st, op, hist)
+    except StepTimeout:
+        ctx.violation("operation-does-not-return", "operation %s did not return within 10 s of wall time "
+                      "(history %r)" % (op, hist + [op]), {"ops": hist + [op]})
+        return False
+    finally:
+        signal.setitimer(signal.ITIMER_REAL, 0)
+
+
 def _same(got, exp):
     """tuple comparison in which a reference reserved byte of WILD matches anything"""
     if got is None or exp is None or not isinstance(got, tuple) or not isinstance(exp, tuple):
@@ -54,7 +79,7 @@ def _same(got, exp):
     return len(got) == len(exp) and all(e is WILD and i == 4 or g == e for i, (g, e) in enumerate(zip(got, exp)))
 
 
-def step(ctx, m, st, op, hist):
+def _step(ctx, m, st, op, hist):
     """apply op to real+ref, compare; returns False after a violation"""
     S = m["structs"]
     if op in ("e_fresh", "e_reuse"):
@@ -170,8 +195,17 @@ def step(ctx, m, st, op, hist):
     ctx.clause("drain_compare")
     clone = copy.deepcopy(st.real)
     got_all = []
-    while len(clone):
-        got_all.append(_tuple(clone.dequeue()))
+    for _ in range(len(st.ref.q) + 8):  # bounded: a queue whose length never reaches 0 must not hang the monitor
+        if not len(clone):
+            break
+        g = clone.dequeue()
+        if g is None:
+            break
+        got_all.append(_tuple(g))
+    else:
+        ctx.violation("drain-does-not-end", "draining a copy of the queue took more than %d dequeues with %d frames in "
+                      "the reference (history %r)" % (len(st.ref.q) + 8, len(st.ref.q), hist + [op]), {"ops": hist + [op]})
+        return False
     if len(got_all) != len(st.ref.q) or not all(_same(g, e) for g, e in zip(got_all, st.ref.q)):
         ctx.violation("content-mismatch", "queue content %r differs from reference %r "
                       "(history %r)" % (got_all[:3], st.ref.q[:3], hist + [op]),
@@ -268,7 +302,10 @@ def _node_walks(ctx, m):
             ref = RefQueue(node.queue.max_queue_size)
             ctr = 0
             hist = []
+            import signal
+            signal.signal(signal.SIGALRM, _alarm)
             for _ in range(200):
+                signal.setitimer(signal.ITIMER_REAL, 10.0)  # cleared in the finally below
                 r = rng.random()
                 if r < 0.45:
                     ctr += 1
@@ -313,7 +350,13 @@ def _node_walks(ctx, m):
                     return
             ctx.evaluations += 1
             ctx.nontrivial(("nodewalk", ctx.shard, w))
+        except StepTimeout:
+            ctx.violation("operation-does-not-return/node", "a queue operation on the node did not return within 10 s "
+                          "of wall time (last operations %r)" % hist[-6:], {"ops": hist[-20:]})
+            return
         finally:
+            import signal as _sg
+            _sg.setitimer(_sg.ITIMER_REAL, 0)
             rig.close()
 
 
